@@ -85,8 +85,12 @@ func (e *Engine) loopHead(st *State, fr *Frame, li *loopInfo) (stop bool) {
 	// havoc heaps per the loop's modifies clauses
 	preHeaps := copyHeaps(st.heaps)
 	pre := &specCtx{e: e, st: st, env: map[string]Val{}, oldEnv: ctx0.oldEnv, heaps: preHeaps, oldHeaps: st.old, fr: fr, pos: li.pos, iter: Zero, pkg: fr.fn.Pkg}
+	var lregs []region
 	for _, m := range ls.Modifies {
-		e.havocRegion(st, fr, pre, m, nil)
+		lregs = append(lregs, pre.evalRegion(m))
+	}
+	for _, r := range lregs {
+		e.havocRegionR(st, fr, r, nil)
 	}
 	if li.hasCall || len(ls.Modifies) > 0 {
 		na := e.fresh("alloc", IntS)
